@@ -106,7 +106,7 @@ func runScanGrammar(m *model.Model, s *ob.Set) {
 				if !ok {
 					continue
 				}
-				cal := ci.Common().StaticCallee()
+				cal := model.Unthunk(ci.Common().StaticCallee())
 				if cal == nil {
 					continue
 				}
@@ -124,6 +124,11 @@ func runScanGrammar(m *model.Model, s *ob.Set) {
 				n++
 				name := m.FuncName(cal)
 				if grammar[name] || name == "(*Decimal).SetInf" || name == "(*Decimal).SetPrec" || name == "(*Decimal).SetMode" {
+					continue
+				}
+				// an unexported helper of the entry points that itself defines values through the
+				// grammar only (scanAll: scan, then a check that nothing follows)
+				if !m.IsExported(cal) && cleanGrammarHelper(m, cal, grammar, definesValue, 3) {
 					continue
 				}
 				bad = append(bad, fmt.Sprintf("%s: the value is defined by %s, not by the grammar of (*Decimal).scan: the same literal can then have two values", m.InstrPos(in), name))
@@ -151,13 +156,13 @@ func runScanGrammar(m *model.Model, s *ob.Set) {
 			}
 			for _, in := range b.Instrs {
 				call, ok := in.(*ssa.Call)
-				if !ok || call.Call.StaticCallee() != scan {
+				if !ok || model.Unthunk(call.Call.StaticCallee()) != scan {
 					continue
 				}
 				// (whole-text) a function that is given the complete text must not stop at the
 				// longest valid prefix: only Parse, which checks that the reader is exhausted
 				// afterwards, and the fmt.Scanner adapter (a token reader by contract) call scan
-				if !isScanState && fn.Name() != "Parse" {
+				if !isScanState && fn.Name() != "Parse" && !readsOnAfter(call) {
 					bad = append(bad, fmt.Sprintf("%s: scan is called directly on the whole text: it accepts the longest valid prefix and leaves the rest unread (only Parse checks that nothing follows)", m.InstrPos(in)))
 				}
 				// (base) no base of its own: 0 (prefix-selected) unless the caller supplies one
@@ -207,7 +212,7 @@ func runScanGrammar(m *model.Model, s *ob.Set) {
 					name := ""
 					if c.Call.IsInvoke() {
 						name = c.Call.Method.Name()
-					} else if cal := c.Call.StaticCallee(); cal != nil {
+					} else if cal := model.Unthunk(c.Call.StaticCallee()); cal != nil {
 						name = cal.Name()
 					}
 					if name == "ReadRune" {
@@ -294,7 +299,7 @@ func runScanGrammar(m *model.Model, s *ob.Set) {
 				}
 				for _, in := range eb.Instrs {
 					if call, ok := in.(*ssa.Call); ok {
-						if cal := call.Call.StaticCallee(); cal != nil && (cal.Name() == "Errorf" || cal.Name() == "New") {
+						if cal := model.Unthunk(call.Call.StaticCallee()); cal != nil && (cal.Name() == "Errorf" || cal.Name() == "New") {
 							guard = m.InstrPos(ifi)
 						}
 					}
@@ -304,4 +309,93 @@ func runScanGrammar(m *model.Model, s *ob.Set) {
 		s.Check(guard != "", R, c, m.Pos(fn.Pos()), "a rune that is not a single byte is refused (test at "+guard+")",
 			"ReadByte narrows the rune ReadRune returned to a byte without refusing runes wider than one byte (no test of size against 1 or of the rune against a bound <= 0x100 that leads to an error): U+0130..U+0139 are read as the digits 0..9 and Scan accepts input math/big rejects")
 	}
+}
+
+// cleanGrammarHelper: every call in fn that may define a Decimal's value goes to the grammar (scan,
+// the text entry points), to SetInf/SetPrec/SetMode, or to another such helper; nothing is
+// converted by strconv.
+func cleanGrammarHelper(m *model.Model, fn *ssa.Function, grammar map[string]bool, definesValue func(*ssa.Function) bool, depth int) bool {
+	if depth == 0 || len(fn.Blocks) == 0 {
+		return false
+	}
+	n := 0
+	for _, b := range fn.Blocks {
+		for _, in := range b.Instrs {
+			ci, ok := in.(ssa.CallInstruction)
+			if !ok {
+				continue
+			}
+			cal := model.Unthunk(ci.Common().StaticCallee())
+			if cal == nil {
+				continue
+			}
+			if cal.Pkg != nil && cal.Pkg.Pkg.Path() == "strconv" {
+				switch cal.Name() {
+				case "ParseUint", "ParseInt", "ParseFloat", "Atoi":
+					return false
+				}
+				continue
+			}
+			if !definesValue(cal) {
+				continue
+			}
+			name := m.FuncName(cal)
+			if grammar[name] {
+				n++
+				continue
+			}
+			if name == "(*Decimal).SetInf" || name == "(*Decimal).SetPrec" || name == "(*Decimal).SetMode" {
+				continue
+			}
+			if !m.IsExported(cal) && cal != fn && cleanGrammarHelper(m, cal, grammar, definesValue, depth-1) {
+				n++
+				continue
+			}
+			return false
+		}
+	}
+	return n > 0
+}
+
+// readsOnAfter: behind the call scan(r, …) the function asks r for another byte (ReadByte on the
+// very reader): it looks at what scan left unread, as Parse does to reject trailing text.
+func readsOnAfter(call *ssa.Call) bool {
+	if len(call.Call.Args) < 2 {
+		return false
+	}
+	r := call.Call.Args[1]
+	fn := call.Parent()
+	for _, b := range fn.Blocks {
+		if b != call.Block() && !blockReaches(call.Block(), b) {
+			continue
+		}
+		for _, in := range b.Instrs {
+			c, ok := in.(*ssa.Call)
+			if !ok {
+				continue
+			}
+			// dv_r.ReadByte() on the concrete reader that was handed to scan as an interface
+			if cal := c.Call.StaticCallee(); cal != nil && cal.Name() == "ReadByte" && len(c.Call.Args) == 1 {
+				if m2, ok := r.(*ssa.MakeInterface); ok && m2.X == c.Call.Args[0] {
+					return true
+				}
+				if c.Call.Args[0] == r {
+					return true
+				}
+			}
+			if !c.Call.IsInvoke() || c.Call.Method.Name() != "ReadByte" {
+				continue
+			}
+			if c.Call.Value == r {
+				return true
+			}
+			// the reader converted to the interface twice from one concrete value
+			if m1, ok := c.Call.Value.(*ssa.MakeInterface); ok {
+				if m2, ok := r.(*ssa.MakeInterface); ok && m1.X == m2.X {
+					return true
+				}
+			}
+		}
+	}
+	return false
 }
